@@ -63,6 +63,14 @@ def build_arg(kind, form, dim=None):
     n = form["n"]
     if kind == "vec_dir":
         return sc.vector([0.0, 0.0, 1.0]), None
+    if kind == "schema_arg":
+        # the documented forms of a schema argument: one CIFSchema or any iterable of them
+        from scippneutron.io import cif
+
+        mine = cif.CIFSchema(name="myCIF", version="1.0", location="https://example.org/my.dic")
+        alts = [lambda: {cif.PD_SCHEMA}, lambda: {cif.PD_SCHEMA, mine}, lambda: [cif.PD_SCHEMA], lambda: (mine,),
+                lambda: cif.PD_SCHEMA, lambda: {cif.CORE_SCHEMA, mine}, lambda: frozenset({mine}), lambda: set()]
+        return alts[form.get("choice", form["seed"]) % len(alts)](), None
     if kind == "vec_axis0":
         # a direction as callers have it: already a unit vector, or a difference of two
         # positions (not normalised, with a length unit), or any vector along the axis
@@ -440,6 +448,19 @@ def _fit_counts(*, data):
     return [[r.assessment, r.message, r.window, dict(r.popt)] for r in res]
 
 
+def _cif_ctors(*, schema, column):
+    """The CIF item constructors with the caller's own schema container and column."""
+    from scippneutron.io import cif
+
+    chunk = cif.Chunk({"a.b": 1.5}, schema=schema)
+    loop = cif.Loop({"c.d": column}, schema=schema)
+    block = cif.Block("blk", [chunk, loop], schema=schema)
+    s = io.StringIO()
+    cif.save_cif(s, block)
+    return {"text": _canon_cif_text(s.getvalue()),
+            "schemas": [sorted(x.name for x in o.schema) for o in (chunk, loop, block)]}
+
+
 def _cylinder_ctor(*, symmetry_line, center_of_base, radius, height):
     """Constructing the public shape classes is an entry point like any other."""
     from scippneutron.absorption.cylinder import Cylinder
@@ -464,12 +485,14 @@ KINDS["wavelength_s"] = {"target": "angstrom", "others": ["nm", "pm", "m"], "fix
 KINDS["density_s"] = {"target": "1/angstrom**3", "others": ["1/nm**3", "1/m**3"], "fixed": [0.07], "scalar": True,
                       "lo": 0, "hi": 1}
 VEC_KINDS["vec_axis0"] = "dimensionless"
+VEC_KINDS["schema_arg"] = "dimensionless"
 VEC_KINDS["vec_base0"] = "mm"
 
 CALLS.update({
     "peaks.model.guess(spectrum)": (lambda: _guess_all, {"$data": "spectrum_var"}),
     "peaks.model.guess(counts)": (lambda: _guess_all, {"$data": "counts"}),
     "peaks.fit_peaks(counts)": (lambda: _fit_counts, {"$data": "counts"}),
+    "cif.Chunk/Loop/Block(schema=...)": (lambda: _cif_ctors, _kw(schema="schema_arg", column="xgrid")),
     "absorption.Cylinder(...)": (lambda: _cylinder_ctor, _kw(symmetry_line="vec_axis0", center_of_base="vec_base0",
                                                             radius="cyl_radius", height="cyl_height")),
     "absorption.Material(...)": (lambda: _material_ctor, _kw(density="density_s", wavelength="wavelength_s")),
@@ -1588,7 +1611,7 @@ class C09Engine(Engine):
                 "io.xye": None, "io.cif": None}
         reached = " ".join(list(CALLS) + list(FACTORIES) + list(DERIVES) + list(HCALLS)) + " " + " ".join(
             inspect.getsource(f) for f in (_model, _deduce, _cif_lowlevel, _from_nexus, _disk_chopper, _subframe, _source_pulse, _model_call, _model_params,
-                                           _transmission, _plateaus, _components, _fit_small, _fit_counts, _guess_all, _convert,
+                                           _transmission, _plateaus, _components, _fit_small, _fit_counts, _guess_all, _cif_ctors, _convert,
                                            _remove_peaks_call, _xye_roundtrip, _cif_save, _cif_save_wrapper, _block_write,
                                            _use_graph, _call_model, _guess_model, _cyl, _material, _cif,
                                            _cif_block, _frameseq, _chopper))
